@@ -147,6 +147,11 @@ func (g *xgen) okAssertionSpec(i int) *AssertionSpec {
 		a.Audiences = nil
 	case 4:
 		a.Audiences = [][]string{{audURI + "/"}, {}}
+	case 5:
+		// an IdP that indents: the signed value IS the padded one, and comparison is exact
+		a.Audiences = [][]string{{"\n      " + audURI + "\n    "}}
+	case 6:
+		a.Audiences = [][]string{{" " + audURI, audURI + "\t"}, {audURI}}
 	}
 	a.OneTimeUse = g.r.Intn(4) == 0
 	if g.r.Intn(4) == 0 {
@@ -155,7 +160,7 @@ func (g *xgen) okAssertionSpec(i int) *AssertionSpec {
 			Audiences []string
 		}{Count: pick(g.r, "0", "1", "5", "\x00")}
 		for k := g.r.Intn(3); k > 0; k-- {
-			a.Proxy.Audiences = append(a.Proxy.Audiences, pick(g.r, audURI, "https://proxy.example.com/aud", "urn:x"))
+			a.Proxy.Audiences = append(a.Proxy.Audiences, pick(g.r, audURI, "https://proxy.example.com/aud", "urn:x", " "+audURI+" ", "\n  urn:x\n"))
 		}
 	}
 	a.UseCDATA = g.r.Intn(5) == 0
